@@ -138,7 +138,8 @@ func getDurationDirective(d map[string]string, token string) (dur time.Duration,
 type CCRequestDirectives map[string]string
 
 func ParseCCRequestDirectives(header http.Header) CCRequestDirectives {
-	value := header.Get("Cache-Control")
+	// All Cache-Control field lines form one list (RFC 9110 §5.3).
+	value := strings.Join(header.Values("Cache-Control"), ",")
 	if value == "" {
 		return nil
 	}
@@ -197,7 +198,8 @@ func (d CCRequestDirectives) StaleIfError() (dur time.Duration, valid bool) {
 type CCResponseDirectives map[string]string
 
 func ParseCCResponseDirectives(header http.Header) CCResponseDirectives {
-	value := header.Get("Cache-Control")
+	// All Cache-Control field lines form one list (RFC 9110 §5.3).
+	value := strings.Join(header.Values("Cache-Control"), ",")
 	if value == "" {
 		return nil
 	}
